@@ -18,7 +18,7 @@ def _match_call(pr, c, m):
         if i >= len(c.term["args"]):
             return False
         ap = pr.operand(c.term["args"][i])
-        if not (re.search(rx, ap) or re.search(rx, wild(ap))):
+        if not atoms_match(rx, [ap]):      # (literal, name-wildcarded, or with named constants taken by value)
             return False
     return True
 
@@ -38,6 +38,10 @@ def _root_local(pr, o, hops=0):
         if rv["r"] == "ref" and not rv["place"]["proj"]:
             r = _root_local(pr, {"k": "copy", "place": rv["place"]}, hops + 1)
             return r if r is not None else rv["place"]["local"]
+        # `&*r`: a reborrow of a reference is that reference
+        if rv["r"] == "ref" and [e.get("p") for e in rv["place"]["proj"]] == ["deref"]:
+            r = _root_local(pr, {"k": "copy", "place": {"local": rv["place"]["local"], "proj": []}}, hops + 1)
+            return r if r is not None else l
         # `*r` where r is a plain reference to a variable
         if rv["r"] == "use" and rv["op"]["k"] in ("copy", "move") and [e.get("p") for e in rv["op"]["place"]["proj"]] == ["deref"]:
             r = _root_local(pr, {"k": "copy", "place": {"local": rv["op"]["place"]["local"], "proj": []}}, hops + 1)
@@ -179,7 +183,7 @@ def make(rule_id, pid=None):
                             vals_ = [str(x) for x, _ in tt["arms"]] + ["otherwise"]
                             tg_ = [b for _, b in tt["arms"]] + [tt["otherwise"]]
                             for val_, tgt_ in zip(vals_, tg_):
-                                if any(re.search(req["exempt_when"], a_) for a_ in g3.describe_all(b_, val_, vals_)):
+                                if atoms_match(req["exempt_when"], g3.describe_all(b_, val_, vals_)):
                                     exempt.update(pg.edge_node(b_, tgt_))
                     oks = oks | exempt
                     reach = pg.reach(starts, oks | err_all)
